@@ -16,6 +16,7 @@ class Iter:
         self.mapped = []                          # deferred transformations while order is open
         self.rev_items = double_ended             # list for .rev() / next_back on exact iterators
         self.base = None
+        self.is_dir_listing = False
 
     def canonical(self):
         """consumer does not care about order: iterate unordered source in insertion order"""
@@ -34,7 +35,12 @@ class Iter:
             if not rem:
                 raise StopIteration
             mode = V.ENG.order_mode if hasattr(V.ENG, 'order_mode') else 'all'
-            if mode == 'scoped':
+            dm = getattr(V.ENG, 'order_dirs', None)
+            if self.is_dir_listing and dm is not None:
+                # directory listings keep the order the harness fixed for them (an unchanged directory enumerates the
+                # same way in every process; hash containers do not)
+                mode = dm
+            elif mode == 'scoped':
                 # all orders for iterations performed directly by the named functions, a fixed order elsewhere
                 scope = V.ENG.order_all_in
                 mode = 'all' if (V.CALL_STACK and V.CALL_STACK[-1] in scope) else V.ENG.order_fallback
@@ -73,9 +79,11 @@ class Iter:
         return list(self)
 
 
-def unordered(items):
+def unordered(items, dir_listing=False):
     """iterator over a snapshot of an unordered container"""
-    return Iter(None, unordered_items=list(items))
+    it = Iter(None, unordered_items=list(items))
+    it.is_dir_listing = dir_listing
+    return it
 
 
 def from_list(lst):
